@@ -24,8 +24,10 @@
 (* separately, over the history variable `hist`, as plain conjunctions     *)
 (* (section "The property").                                               *)
 (*                                                                         *)
-(* Abstract vocabulary.  Servers "R","J","X".  The joining / leaving user  *)
-(* U belongs to server J; A is a user of R (candidate authoriser of        *)
+(* Abstract vocabulary.  Servers "R","J","X" (and in the guard products    *)
+(* "N","M": names extending J's; "K": J's name in another letter case).    *)
+(* The joining / leaving user U belongs to server J; A is a user of R       *)
+(* (candidate authoriser of                                                *)
 (* restricted joins, inviter), B a second user of R with no power.         *)
 (*   facts  sc  (R's world: room state and querier answers)                *)
 (*     ver      room version ("1","6","10","12",...)                       *)
@@ -127,6 +129,24 @@ ViaSigned(v)           == v \in {"9", "10", "11", "12", "org.matrix.msc3787", "o
 (***************************************************************************)
 GoodSigs == {"valid", "vu_eq", "ex_m1", "two_keys", "plus_other", "presigned", "presigned_bad"}
 SigOK(x) == x \in GoodSigs
+
+(***************************************************************************)
+(* Ownership: "the user (sender) belongs to the requesting server".        *)
+(* Server names are identities: signing keys are published and looked up   *)
+(* under the exact name, so they are compared exactly.  "K" is a server    *)
+(* whose name is J's name in another letter case (J "j.test", K "J.TEST"): *)
+(* another server with its own keys.  The relation of a user's server u to *)
+(* the requesting server o has three values:                               *)
+(*   own      the same name                                                *)
+(*   casevar  the same name in another letter case                         *)
+(*   other    anything else (also names that extend o's name: N, M)        *)
+(* Only "own" satisfies the conjunct, in every handler.  The signature     *)
+(* class "casevar" (the only signature stands under the case partner's     *)
+(* name, made with the partner's key) is not a signature of S.             *)
+(***************************************************************************)
+CasePartner(x) == CASE x = "J" -> "K" [] x = "K" -> "J" [] OTHER -> "none"
+Ownership(o, u) == IF o = u THEN "own" ELSE IF CasePartner(o) = u THEN "casevar" ELSE "other"
+Belongs(o, u)   == Ownership(o, u) = "own"
 
 (***************************************************************************)
 (* Authorisation rules for U's own join / leave (Matrix specification,     *)
@@ -629,14 +649,14 @@ Spec == Init /\ [][Next]_vars
 \* 1. HandleMakeJoin / HandleMakeLeave return a template only if ...
 MJConjuncts(q, s) ==
     /\ q.vers = "has"                                      \* the remote supports the room version
-    /\ q.usrv = q.origin                                   \* the user belongs to the requesting server
+    /\ Belongs(q.origin, q.usrv)                           \* the user belongs to the requesting server
     /\ s.inRoom /\ q.room = "main"                         \* the local server is in the room
     /\ RestrictedVia(s) \in {"none", "A"}                  \* a restricted join can be authorised by an entitled local user
     /\ s.tb \in {"ok", "nocreate"}                         \* there is a resulting event ...
     /\ JoinAuth(s.ver, StateOf(s), RestrictedVia(s))       \* ... and it passes the auth rules
 
 MLConjuncts(q, s) ==
-    /\ q.usrv = q.origin /\ s.inRoom /\ q.room = "main"
+    /\ Belongs(q.origin, q.usrv) /\ s.inRoom /\ q.room = "main"
     /\ s.tb \in {"ok", "nocreate"} /\ LeaveAuth(StateOf(s))
 
 MakeJoinExact  == \A i \in Entries("MakeJoinResp")  : (hist[i].res = "ok") <=> MJConjuncts(hist[i].req, sc)
@@ -663,7 +683,7 @@ SJConjuncts(q, s) ==
     /\ e.type = "member" /\ e.mship = "join"               \* it is a join
     /\ e.skey = "sender"                                   \* whose sender equals its state key
     /\ e.room = q.room /\ q.eid = "match"                  \* whose room and event ID match the request
-    /\ s.uq = "ok" /\ e.ssrv = q.origin                    \* whose sender belongs to the requesting server
+    /\ s.uq = "ok" /\ Belongs(q.origin, e.ssrv)            \* whose sender belongs to the requesting server
     /\ (PseudoIDs(s.ver) => s.map = "ok")                  \*   (pseudo IDs: by a mapping that server signed)
     /\ SigOK(e.sig) /\ s.env # "kr_err"                    \* which that server has validly signed
     /\ s.mem # "ban" /\ s.env # "memq_err"                 \* whose target (the state key: the sender ID) is not banned
@@ -739,6 +759,17 @@ UnforgedRestrictedJoinSucceeds ==
        /\ RestrictedVia(sc) \in {"none", "A"}) => pj = "ok"
 TamperedNeverAccepted ==
     \A i \in Entries("SendJoinResp") \cup Entries("InviteResp") : ~SigOK(hist[i].req.ev.sig) => hist[i].res = "refused"
+
+\* a name in another letter case is another server: no handler takes a case variant for the requesting server,
+\* and a signature under the case partner's name is not the sender's server's signature
+CaseVariantIsAnotherServer ==
+    /\ \A i \in Entries("MakeJoinResp") \cup Entries("MakeLeaveResp") :
+          Ownership(hist[i].req.origin, hist[i].req.usrv) = "casevar" => hist[i].res = "refused"
+    /\ \A i \in Entries("SendJoinResp") :
+          Ownership(hist[i].req.origin, hist[i].req.ev.ssrv) = "casevar" => hist[i].res = "refused"
+    /\ \A i \in Entries("SendJoinResp") \cup Entries("InviteResp") :
+          hist[i].req.ev.sig = "casevar" => hist[i].res = "refused"
+    /\ \A o \in {"R", "J", "X", "K", "N", "M"}, u \in {"R", "J", "X", "K", "N", "M"} : Belongs(o, u) <=> o = u
 
 TypeOK == /\ nforge \in 0..MaxForge /\ pj \in {"", "ok", "refused"}
           /\ phase \in {"start", "mjreq", "mjresp", "built", "sjreq", "sjresp", "mlreq", "invreq", "inv3req", "done"}
